@@ -5,7 +5,7 @@ ENGINES = [
     {"name": "explorer", "path": "harness/explorer.py", "kind_free_text": "stateless DFS explicit-state model checker over the real engine on a simulated broker (replay + fingerprint dedup + deviation bound)",
      "serves_properties": ["C02", "C03", "C04", "C05", "C10", "C06", "C08", "C09", "C11"]},
     {"name": "enumerator", "path": "checks/common.py", "kind_free_text": "exhaustive small-scope enumeration of inputs/programs from a stated finite alphabet, each evaluated on the real code and on a reference model under /verif/ref",
-     "serves_properties": ["C01", "C07", "C08", "C12", "C14", "C16", "C17"]},
+     "serves_properties": ["C01", "C07", "C08", "C12", "C13", "C14", "C16", "C17"]},
 ]
 CHECKS = {
     "C03": {
@@ -107,6 +107,15 @@ CHECKS["C17"] = {
             "through the real API and engine (STANDARD and EXPRESS) with every derived identifier compared; names that bypass the validator (child launch, raw event).",
     "note": ENUM + " " + SIM,
     "technique": "exhaustive small-scope enumeration of names/ARN parts with round-trip and differential oracles",
+}
+CHECKS["C13"] = {
+    "engine": "enumerator",
+    "text": "Grammar-based exhaustive enumeration: every intrinsic function x 0..arity+1 arguments x argument kinds (numbers, quoted strings containing , ) ( escaped apostrophes { } ^ ] - , null/true/false, path hit/miss, "
+            "context paths, nested calls to depth 2) plus malformed call texts and payload templates of depth <= 2 mixing literal and '.$' members, each evaluated by the real evaluate_payload_template and by an "
+            "independent tokenizer + recursive-descent reference; value equality, failure class (only IntrinsicFailure / path failure may escape), immutability of template/input/context; the whole corpus "
+            "re-evaluated under three PYTHONHASHSEED values.",
+    "note": ENUM + " Results the definitions leave open (rendering of non-string non-integer Format arguments, surplus Format arguments, empty StringSplit fields, negative ArrayRange increments, random numbers) are not judged.",
+    "technique": "exhaustive grammar-based enumeration of expressions against a reference evaluator (bounded model checking, explicit enumeration)",
 }
 NA = {}
 NOTES = "All checks run the real code of /repo's working tree (imported by path) over /verif/sim; see DESIGN.md."
